@@ -15,6 +15,7 @@
 
 #include <stdlib.h>
 #include <string.h>
+#include <limits.h>
 
 /* stores a reference to values */
 int sbdf_cs_create(sbdf_columnslice** out, sbdf_valuearray* values)
@@ -211,15 +212,23 @@ int sbdf_cs_read(FILE* f, sbdf_columnslice** out)
 	/* TODO Verify that it is OK to have no properties */
 	if (v > 0)
 	{
+		if (v > INT_MAX / (int)sizeof(void*))
+		{
+			error = SBDF_ERROR_INVALID_SIZE;
+			goto end;
+		}
+
 		if (error = sbdf_alloc((void**)&t->properties, v * sizeof(void*)))
 		{
 			goto end;
 		}
+		memset(t->properties, 0, v * sizeof(void*));
 
 		if (error = sbdf_alloc((void**)&t->property_names, v * sizeof(void*)))
 		{
 			goto end;
 		}
+		memset(t->property_names, 0, v * sizeof(void*));
 
 		for (i = 0; i < v; ++i)
 		{
